@@ -280,13 +280,48 @@ def h_redefinition_history(eng, pre):
         used.parse_units("kkw")
         used.get_name("uus")
         used.get_compatible_units("w")
-    used.define(line)
+    if pre == "via-load_definitions":
+        Qy(x, "u").to("m")
+        used.get_root_units("w")
+        used.load_definitions([line])
+    else:
+        used.define(line)
     i = lines.index("@defaults")
     fresh = regs.build(eng, lines[:i] + [line] + lines[i:], on_redefinition="ignore")
     for (la, a), (_lb, b) in zip(_answers(eng, used, x, None), _answers(eng, fresh, x, None)):
         _same(eng, a, b, f"redefinition:pre={pre}:{la}")
     eng.prove(Eq(used.Quantity(x, "w").to("m").magnitude, 3 * su2 * x), f"redefinition:pre={pre}:dependent-unit-follows")
     eng.prove(Eq(used.get_root_units("w")[0], 3 * su2), f"redefinition:pre={pre}:get_root_units-follows")
+
+
+def h_define_parsed_name(eng, pre):
+    """a string that parsed as prefix + unit (or plural) before is then defined as a unit of its
+    own: from then on the exact name wins, as in a registry that had the definition from the start"""
+    W = World(eng)
+    s7, x = eng.real("s7"), eng.real("x")
+    eng.assume(s7 > 0)
+    lines = _text(W, late=False)
+    used = regs.build(eng, lines, on_redefinition="ignore")
+    name = {"prefixed": "kku", "plural": "uus", "prefixed-symbol": "KU_"}[pre]
+    used.parse_units(name)
+    used.Quantity(x, name).to_root_units()
+    used.get_name(name)
+    line = f"{name} = {eng.lit(s7)} * s"
+    used.define(line)
+    i = lines.index("@defaults")
+    fresh = regs.build(eng, lines[:i] + [line] + lines[i:], on_redefinition="ignore")
+    for label, fn in (("parse_units", lambda r: dict(r.parse_units(name)._units)), ("to_root_units", lambda r: (lambda q: (q.magnitude, dict(q._units)))(r.Quantity(x, name).to_root_units())), ("get_name", lambda r: r.get_name(name)),
+                      ("dimensionality", lambda r: dict(r.get_dimensionality(name))), ("convert", lambda r: r.Quantity(x, name).to("s").magnitude)):
+        try:
+            a = fn(used)
+        except (DimensionalityError, UndefinedUnitError) as ex:
+            a = type(ex).__name__
+        try:
+            b = fn(fresh)
+        except (DimensionalityError, UndefinedUnitError) as ex:
+            b = type(ex).__name__
+        _same(eng, a, b, f"define-parsed-name:{pre}:{label}")
+    eng.prove(Eq(used.Quantity(x, name).to("s").magnitude, x * s7), f"define-parsed-name:{pre}:value")
 
 
 def h_programmatic_context_history(eng, first, endpoints):
@@ -436,8 +471,10 @@ def cases(tier, seed):
     from .. import covers
 
     fp = covers.same_dim_pairs(seed, 400 if big else 60) + [("minute", "second"), ("week", "day"), ("pound", "kilogram"), ("second", "minute"), ("inch", "yard"), ("hour", "millisecond")]
-    for pre in ("nothing", "conversions", "roots", "names", "all"):
+    for pre in ("nothing", "conversions", "roots", "names", "all", "via-load_definitions"):
         out.append(Case("H13", f"redefinition:pre={pre}", M, "h_redefinition_history", {"pre": pre}, opts={"hash_mode": "mixed", "max_paths": 300}, validate=1))
+    for pre in ("prefixed", "plural", "prefixed-symbol"):
+        out.append(Case("H13", f"define-parsed-name:{pre}", M, "h_define_parsed_name", {"pre": pre}, opts={"hash_mode": "mixed", "max_paths": 300}, validate=1))
     for first in ("per-call-kw", "with-kw", "enable-kw", "nested-inherits", "plain"):
         for ep in ("derived", "derived-both"):
             out.append(Case("H13", f"programmatic-context:{first}:{ep}", M, "h_programmatic_context_history", {"first": first, "endpoints": ep}, opts={"hash_mode": "mixed", "max_paths": 300}, validate=1))
@@ -445,4 +482,5 @@ def cases(tier, seed):
         out.append(Case("H13.float", f"history:{i:04d}", M, "h_float_history", {"pairs": fp[i : i + 12]}, kind="conc"))
     for i, s in enumerate(seqs):
         out.append(Case("H13", ";".join(s), M, "h_sequence", {"ops": s}, opts={"hash_mode": "mixed", "max_paths": 300}, validate=1 if i % 8 == 0 else 0, weight=float(len(s))))
+    out.append(Case("H13.obs", "observed", "pvlib.harness.observed", "h_c13", {}, kind="conc"))
     return out
